@@ -345,6 +345,7 @@ def run(rep, facts, tier):
     # ------------------------------------------------------------ R20.5
     rule_20_5(rep, fx)
     rule_20_6(rep, fx)
+    rule_20_9(rep, fx)
 
 
 def rule_20_5(rep, fx):
@@ -440,3 +441,57 @@ def _leaf_consts(t):
                 rec(y)
     rec(t)
     return out
+
+
+def rule_20_9(rep, fx):
+    """The waiter's own step: who is taken off the pending set, and what it answers (added after mutation round 4: the removal in the reader-lost arm could be deleted unnoticed)."""
+    rep.rule('R20.9', 'AckWaiter::reader_acked_or_lost takes the reader off readers_pending on every path of the reader-lost arm (None) and of the acknowledged arm (Some(b) with '
+                      'wait_until < b), nowhere else, and answers readers_pending.is_empty() evaluated after that removal')
+    b = fx.find('rtps::writer::AckWaiter::reader_acked_or_lost')
+    rep.analysed(b)
+    og = Origins(b, summaries=True)
+    P = Pos(b)
+    edges = list(switch_edges(b, fx, og))
+    none_e = [(s_, t_) for s_, t_, c, lab in edges if lab == 'None' and c[0] == 'discr' and c[1] == ('param', 3)]
+    acked_e = []
+    for s_, t_, c, lab in edges:
+        if c[0] == 'call' and c[1].rsplit('::', 1)[-1] in ('lt', 'gt', 'le', 'ge') and term_has(c, lambda x: x[0] == 'field' and x[1] == 'wait_until') and term_has(c, lambda x: x == ('param', 3)):
+            m = c[1].rsplit('::', 1)[-1]
+            first_is_s = term_has(c[2][0], lambda x: x[0] == 'field' and x[1] == 'wait_until')
+            # S < B, written either way round (the inclusive/exclusive direction itself is R20.1)
+            strict_true = (m == 'lt' and first_is_s) or (m == 'gt' and not first_is_s)
+            nonstrict_false = (m == 'ge' and first_is_s) or (m == 'le' and not first_is_s)
+            if (strict_true and lab is True) or (nonstrict_false and lab is False):
+                acked_e.append((s_, t_))
+    removes = [(bb, 'term') for bb, t in b.calls() if callee_res(t).endswith('::remove') and
+               term_has(og.of_operand(t['args'][0], bb, 'term'), lambda x: x[0] == 'field' and x[1] == 'readers_pending') and
+               term_has(og.of_operand(t['args'][1], bb, 'term'), lambda x: x == ('param', 2))]
+    if not none_e or not acked_e:
+        raise CheckBroken('R20.9: arms of AckWaiter::reader_acked_or_lost not found (None %d, acknowledged %d)' % (len(none_e), len(acked_e)))
+    rets = [(r, 'term') for r in b.return_blocks()]
+    for name, es, why in (('reader-lost', none_e, 'a reader that was lost (unmatched, or its participant timed out) stays pending: the wait cannot complete before its timeout, and the '
+                                                    'asynchronous wait never completes'),
+                          ('acknowledged', acked_e, 'a reader that has acknowledged everything waited for stays pending: the wait never completes')):
+        ok = bool(removes)
+        for s_, t_ in es:
+            for r in rets:
+                if not P.every_path_passes((t_, 0), r, via_pos=removes) and (t_, 'term') not in removes:
+                    ok = False
+        rep.check(ok, 'R20.9', 'reader_acked_or_lost/%s-removed' % name, '%s arm => readers_pending.remove(guid) on every path' % name,
+                  'AckWaiter::reader_acked_or_lost: in the %s arm a path returns without taking the reader off readers_pending: %s' % (name, why), b.where())
+    ok = all(P.every_path_passes(None, rp, via_edges=none_e + acked_e, from_entry=True) for rp in removes)
+    rep.check(ok, 'R20.9', 'reader_acked_or_lost/removed-only-then', 'remove only under None or wait_until < acked_before',
+              'AckWaiter::reader_acked_or_lost takes a reader off the pending set although it is neither lost nor has acknowledged everything waited for: wait_for_acknowledgments '
+              'can say yes while a reader is behind', b.where())
+    ie = [(bb, 'term') for bb, t in b.calls() if callee_res(t).endswith('::is_empty') and
+          term_has(og.of_operand(t['args'][0], bb, 'term'), lambda x: x[0] == 'field' and x[1] == 'readers_pending')]
+    ok = bool(ie)
+    for r in b.return_blocks():
+        v = og.of_local(0, r, 'term')
+        ok = ok and v[0] == 'call' and v[1].endswith('::is_empty') and term_has(v, lambda x: x[0] == 'field' and x[1] == 'readers_pending')
+    for rp in removes:
+        for r in rets:
+            if not P.every_path_passes(rp, r, via_pos=ie):
+                ok = False
+    rep.check(ok, 'R20.9', 'reader_acked_or_lost/answer', 'returns readers_pending.is_empty() taken after the removal',
+              'AckWaiter::reader_acked_or_lost does not answer with the emptiness of the pending set as it is after this step: completion is reported late, never, or too early', b.where())
